@@ -75,6 +75,38 @@ def run(work, tier, replay=None):
         for line in open(work.path("auth", "out%d.ndjson" % i)):
             if json.loads(line).get("admitted"):
                 admitted += 1
+    # the HTTP surface around the two authenticated mounts (Http.tla): the table properties with TLC, every row on the
+    # real handlers.  Only an entry into a wrapped handler that the table forbids (a pre-flight or a request without a
+    # valid token reaching the relay or the smoke test) is a C15 matter; other deviations are recorded as conformance notes.
+    surface = None
+    if not replay:
+        rt = work.tlc("http-table", "Http", "SPECIFICATION HSpec\nINVARIANTS PreflightNeverEnters NoTokenNoEntry CorsOnEveryAnswer ReadyIff\nCHECK_DEADLOCK FALSE\n",
+                      workers=2, timeout=300, dump=False)
+        if "error" in rt or rt.get("timeout"):
+            raise Inconclusive("Http.tla failed: %s" % rt.get("error", "timeout"))
+        hp = work.path("httpsurf.ndjson")
+        work.run_harness(["httpsurf", "-out", hp], timeout=300)
+        hrows = [json.loads(x) for x in open(hp)]
+        dev, off = [], 0
+        while off < len(hrows) and len(dev) < 20:
+            part = hp + ".part"
+            write_ndjson(part, hrows[off:])
+            rv = work.tlc("http-tv", "Http", "SPECIFICATION TSpec\nINVARIANT Ok_Http\nCHECK_DEADLOCK FALSE\nPOSTCONDITION TraceAccepted\n", workers=1, timeout=300,
+                          env=dict(VERIF_TRACE=part))
+            if "error" in rv or rv.get("timeout"):
+                raise Inconclusive("Http trace validation failed: %s" % rv.get("error", "timeout"))
+            if "violated" not in rv:
+                break
+            l = json.load(open(rv["ce"]))["counterexample"]["state"][-1][1]["l"]
+            dev.append(hrows[off + l - 2])
+            off += l - 1
+        surface = dict(table_states=rt.get("distinct"), table_violated=rt.get("violated"), rows_on_real_handlers=len(hrows), deviations=dev)
+        work.log("Http.tla: %s table rows%s; %d rows on the real handlers, %d deviations" % (
+            rt.get("distinct"), " VIOLATED " + rt["violated"] if "violated" in rt else "", len(hrows), len(dev)))
+        for d in dev:
+            if d.get("k") == "row" and d.get("entered") and d["endpoint"] in ("relay", "smoketest") and (d["token"] == "none" or d["method"] == "OPTIONS" and d["endpoint"] == "relay"):
+                fails.append(dict(secret="s1", header="absent" if d["token"] == "none" else "valid_s1", query="absent", cookie="absent", bearer=True,
+                                  endpoint=d["endpoint"], admitted=True, entered=True, method=d["method"], surface_row=d))
     violations, known, seen = [], [], set()
     for row in fails:
         eff = row["header"] if (row["header"] != "absent" and row["bearer"]) else (row["query"] if row["query"] != "absent" else row["cookie"])
@@ -90,7 +122,7 @@ def run(work, tier, replay=None):
         violations.append((row, save_replay("C15", "%s-%s-%s" % (row["secret"], eff, row["endpoint"]), [row])))
     coverage = dict(states=mc.get("distinct", 0) or 1, transitions=mc.get("generated", 0) or 1, traces_validated_against_impl=total,
                     rows=total, admitted=admitted, exhaustive=(tier == "thorough"),
-                    samples=[rows[0], rows[1]] if len(rows) > 1 else rows, failing=fails[:10])
+                    samples=[rows[0], rows[1]] if len(rows) > 1 else rows, failing=fails[:10], http_surface=surface)
     write_evidence(work, "model_checking", coverage,
                    ["token strings inside a class are minted by the harness with golang-jwt (the library hagall-common uses): cryptographic validity is the library's; 'every mutation of a valid token' is sampled per class",
                     "the mux is built in the harness with the same shape as cmd/main.go ('/' behind HandleWithCORS(websocket.Server{Handshake: VerifyAuthToken}), '/smoke-test' behind VerifyAuthTokenHandler); cmd/main.go itself is not executed",
